@@ -39,6 +39,14 @@ class ExecutionContext:
 
         return result
 
+    def __Divide(self, resultType: LinearIR.Type, op1, op2):
+        if isinstance(resultType, LinearIR.IntegerType):
+            # Integer division truncates toward zero
+            quotient = abs(op1) // abs(op2)
+            return quotient if (op1 < 0) == (op2 < 0) else -quotient
+        else:
+            return op1 / op2
+
     def __CreateInstance(self, varType: LinearIR.Type):
         if varType.IsPrimitive():
             return self.__CreatePrimitiveInstance(varType)
@@ -176,7 +184,9 @@ class ExecutionContext:
                         case LinearIR.OpCode.SUB:
                             localScope[ref] = op1 - op2
                         case LinearIR.OpCode.DIV:
-                            localScope[ref] = op1 / op2
+                            localScope[ref] = self.__Divide(
+                                instruction.Type, op1, op2
+                            )
                         case LinearIR.OpCode.MUL:
                             localScope[ref] = op1 * op2
                         case LinearIR.OpCode.MOD:
@@ -232,7 +242,12 @@ class ExecutionContext:
                         case LinearIR.OpCode.VECTOR_MUL_SCALAR:
                             localScope[ref] = [v * op2 for v in op1]
                         case LinearIR.OpCode.VECTOR_DIV_SCALAR:
-                            localScope[ref] = [v / op2 for v in op1]
+                            localScope[ref] = [
+                                self.__Divide(
+                                    instruction.Type.ElementType, v, op2
+                                )
+                                for v in op1
+                            ]
                         case LinearIR.OpCode.MATRIX_MUL_MATRIX:
                             localScope[ref] = self.__MatrixMatrixMultiply(
                                 instruction.Type.Shape, op1, op2
